@@ -141,7 +141,7 @@ def parse_short_sets(path, lst):
                     if not l.strip(): continue
                     spans = list(re.finditer(r'\S+', l))
                     if ncols is None or len(spans) < ncols + 1: continue
-                    try: rows.append((' '.join(l[:spans[-ncols - 1].start()].split()), [float(t.group(0)) for t in spans[-ncols:]]))
+                    try: rows.append((' '.join(l[1:spans[-ncols - 1].start()].split()), [float(t.group(0)) for t in spans[-ncols:]]))     # column 0 is Fortran carriage control ('1' = new page)
                     except ValueError: rows.append((None, None))
             tabs[c] = rows; order.append(c)
             k = kws[2] + 1
@@ -175,7 +175,7 @@ def gen_selections(lst, names, sim, rng, cap, has_short, thorough):
     subsets = [list(c) for r in range(1, len(tn) + 1) for c in itertools.combinations(tn, r)]
     calls = []
     hows_row, hows_col, forms = ['first', 'last', 'mid'], ['c0', 'cl', 'rnd'], ['name', 'int', 'rev']
-    rounds = 4 if thorough else 3
+    rounds = 12 if thorough else 3
     for rd in range(rounds):
         for sub in subsets:
             order = list(sub)
@@ -195,7 +195,7 @@ def gen_selections(lst, names, sim, rng, cap, has_short, thorough):
             form = 'tuple' if (len(sel) == 1 and rng.random() < 0.5) else 'list'
             short = None
             if has_short: short = [None, True, False][(rd + len(calls)) % 3]
-            calls.append({'sel': sel, 'form': form, 'short': short, 'index': rng.choice(sorted(set([0, n_idx - 1, n_idx // 2]))), 'tables': sub})
+            calls.append({'sel': sel, 'form': form, 'short': short, 'index': rng.randrange(n_idx) if (thorough and rd >= 4) else rng.choice(sorted(set([0, n_idx - 1, n_idx // 2]))), 'tables': sub})
     # every column / every row form on single tables (cheap, no skipping involved)
     for n in tn:
         t = tabs[n]
@@ -597,10 +597,10 @@ def collect(ctx, results, timeout):
 
 
 def run(ctx):
-    ctx.rule = ('every shipped listing file; per file every non-empty subset of its tables (incl. subsets that skip intermediate tables) in 3 (thorough: 4) item orders '
+    ctx.rule = ('every shipped listing file; per file every non-empty subset of its tables (incl. subsets that skip intermediate tables) in 3 (thorough: 12) item orders '
                 '(file order, reversed, shuffled), 1-2 items per table, rows by name / reversed connection name / integer index, first / last / random interior row, '
                 'first / last / random column, plus every column (quick: first 6) x first/last/interior row on single tables; tuple and list forms; short = default/True/False on '
-                'AUTOUGH2 files with short output; current index in {0, middle, last}; a few items with a row name that is not in the table; of the table subsets in the known '
+                'AUTOUGH2 files with short output; current index in {0, middle, last} (thorough: also random); a few items with a row name that is not in the table; of the table subsets in the known '
                 'non-terminating class one call per subset and TOUGH+ file (thorough: four); a case is one history() call, distinct by file, table subset and selection')
     ctx.trusted += ['Coq 8.16.1 kernel (coqc); vm_compute only on closed terms inside proofs',
                     'hand model coq/C06/ListingHistory.v of history()/skip_to_table_* over the marker abstraction (validated on this run against the real calls, with the fuel bound proved in HistoryFuel.v)',
@@ -617,7 +617,7 @@ def run(ctx):
     ok = ctx.coq_build()
     exe = vf.build_driver(ctx) if ok else None
     files = nav.listing_files(ctx.repo)
-    cap = 2000 if ctx.thorough else 240
+    cap = 6000 if ctx.thorough else 240
     timeout = 3000 if ctx.thorough else 420
     results = run_all(ctx, exe, files, cap, timeout)
     collect(ctx, results, timeout)
